@@ -627,4 +627,41 @@ theorem frame (st : St) (op : Op) (t : Nat) (ht : op.tenant = some t) (t' : Nat)
   | restart => simp [Op.tenant] at ht
   | graceful => simp [Op.tenant] at ht
 
+/-! ### the `_aliases` request -/
+
+theorem post_is_run (l : List (Option Op)) : ∀ (st : St), (postRun st l).1 = (run st (executed st l)).1 := by
+  induction l with
+  | nil => intro st; rfl
+  | cons x r ih =>
+    intro st
+    cases x with
+    | none => rfl
+    | some op =>
+      simp only [postRun, executed]
+      by_cases h : (step st op).2 = .res .ok
+      · simp only [h, if_true, run]; exact ih _
+      · simp only [h, if_false, run]
+
+theorem post_ack (l : List (Option Op)) : ∀ (st : St), (postRun st l).2 = true →
+    none ∉ l ∧ executed st l = l.filterMap id := by
+  induction l with
+  | nil => intro st _; exact ⟨by simp, rfl⟩
+  | cons x r ih =>
+    intro st h
+    cases x with
+    | none => simp [postRun] at h
+    | some op =>
+      simp only [postRun] at h
+      by_cases hk : (step st op).2 = .res .ok
+      · simp only [hk, if_true] at h
+        obtain ⟨h1, h2⟩ := ih _ h
+        refine ⟨by simp [h1], ?_⟩
+        simp only [executed, hk, if_true, List.filterMap_cons, id, h2]
+      · simp [hk] at h
+
+theorem run_append (a b : List Op) : ∀ (st : St), (run st (a ++ b)).1 = (run (run st a).1 b).1 := by
+  induction a with
+  | nil => intro st; rfl
+  | cons op r ih => intro st; simp only [List.cons_append, run]; exact ih _
+
 end SigModel.Lemmas.C20K.Alias
